@@ -201,6 +201,7 @@ func hostDecls() native.Declarations {
 	e := errHost
 	return native.Declarations{
 		"S":         reflect.TypeFor[S](),
+		"Stringer":  reflect.TypeFor[fmt.Stringer](),
 		"Err":       &e,
 		"PanicErr":  func() { panic(errHost) },
 		"PanicErrV": func() int { panic(errHost) },
